@@ -187,6 +187,7 @@ def go_quote(s):
 
 def cls_char(ch):
     if ch in "]\\": return "\\" + ch
+    if (ord(ch) < 0x20 and ch not in "\n\t\r") or ord(ch) == 0x7f: return "\\x%02x" % ord(ch)
     if ch == "\n": return "\\n"
     if ch == "\t": return "\\t"
     if ch == "\r": return "\\r"
